@@ -1,6 +1,7 @@
 import EaselModel.Core.Proto
 import EaselModel.Msa.Model
 import EaselModel.Msa.Model2
+import EaselModel.Msa.Model3
 import EaselModel.Msa.AbcTables
 /-! Line-protocol driver for the C15 model (alignment transformations, WUSS). Mirrors harness/h_msaops.c. -/
 open EaselModel EaselModel.Proto EaselModel.Msa
@@ -377,9 +378,12 @@ def step (s : S) (line : String) : S × String :=
     | some m, some t =>
       let bits := t.toList.foldl (fun acc c => acc * 16 + (hexVal c).getD 0) 0
       if (argNat? ws "cons").getD 0 == 1 then
-        match reasonableRFCons (floatArith (Float.ofBits (UInt64.ofNat bits))) f32Arith m (m.wgt.map Float.ofBits) with
-        | some rf => (s, "ok ss=" ++ oStr (some rf))
-        | none => (s, "fault")      -- text mode: `msa->abc->K` with `msa->abc == NULL`
+        -- `abc=`: a caller-supplied alphabet hung on a TEXT alignment for the duration of the call
+        let abc := if m.isDigital then m.abc else (match arg? ws "abc" with | some nm => abcOf nm | none => none)
+        match reasonableRFConsX (floatArith (Float.ofBits (UInt64.ofNat bits))) f32Arith m abc (m.wgt.map Float.ofBits) with
+        | .ok rf => (s, "ok ss=" ++ oStr (some rf))
+        | .einval => (s, "einval exception")
+        | .fault => (s, "fault")
       else
       match reasonableRF (floatArith (Float.ofBits (UInt64.ofNat bits))) m (m.wgt.map Float.ofBits) with
       | some rf => (s, "ok ss=" ++ oStr (some rf))
